@@ -20,6 +20,11 @@ fn main() {
     if std::env::var("UVH_LOG").is_err() {
         let _ = log::set_logger(&NOLOG);
     }
+    // any panic on any thread is recorded on stdout (a panic that unwinds out of an extern "C"
+    // function additionally aborts the process, which the orchestrator sees as a crash)
+    std::panic::set_hook(Box::new(|info| {
+        println!("PANIC-HOOK {}", info.to_string().replace('\n', " "));
+    }));
     let args: Vec<String> = std::env::args().collect();
     if args.len() < 2 {
         eprintln!("usage: uvh replay <opfile> <workdir> | mkpatch <base> <new> <out> | zdec <file> | ...");
